@@ -96,5 +96,21 @@ CHECKS['C06'] = dict(
           'bounded. Repo fix: U+2028/U+2029 removed from t_ignore.'),
 )
 
-NOT_APPLICABLE = {p: PENDING for p in ['C01', 'C02', 'C03', 'C04', 'C05', 'C07', 'C09', 'C12',
+CHECKS['C09'] = dict(
+    engine='E1 pyvc + E4',
+    level='other',
+    ref='DESIGN.md 4 (C09)',
+    technique='deductive contracts (z3) on the Names and Bookkeeper state machines from the real AST; sourcemap.write / normalisation by bounded executable contract against an independent Source Map V3 decoder',
+    text=('Proved for all inputs: Names.update keeps the name->index map injective onto [0,size), returns the index relative to the '
+          'previous one and leaves the current index in range (so every source/name index written is in range); Bookkeeper '
+          'set/get/del implement the (previous,current) pairs whose difference is the relative value V3 wants. The VLQ layer is '
+          'proved under C10. sourcemap.write and normalize_mapping_line (nested loops over str.splitlines pieces, a closure '
+          'mutating shared state) are NOT under a deductive contract: they are checked only by the bounded stand-in, which decodes '
+          'the produced map with an independent decoder for exhaustive short synthetic streams and real printer streams. '
+          'Hence "other".'),
+    note=('Trusted: C10, str.splitlines, json/base64, the independent decoder. Bounded only: write(), normalize_mapping_line(), '
+          'normalize_mappings(), Names.__iter__, encode_sourcemap.'),
+)
+
+NOT_APPLICABLE = {p: PENDING for p in ['C01', 'C02', 'C03', 'C04', 'C05', 'C07', 'C12',
                                         'C13', 'C14', 'C15', 'C17', 'C18', 'C19']}
